@@ -142,10 +142,13 @@ Label(c) == /\ ~stuck /\ Has(c, "case") /\ Log([op |-> "Cmd", c |-> c, via |-> "
 Complete(c) == /\ ~stuck /\ Has(c, "case") /\ Log([op |-> "Cmd", c |-> c, via |-> "case", cmd |-> "complete"])
                /\ LET s == The(c, "case") IN
                   IF fs.armed /\ fs.fab = s.fab /\ Present(s.fab) /\ fabrics[s.fab].gen = s.gen
-                  THEN /\ fs' = Idle /\ sess' = RemovePase(sess)             \* failsafe.disarm, close window, remove_pase - and only then:
-                       /\ IF failNext                                         \* persist.store(fabric)? fails: the answer is Failure,
-                          THEN UNCHANGED <<kv, acked>> /\ uncommitted' = TRUE  \* the fail-safe is idle, nothing is stored (open finding F-C08e)
-                          ELSE kv' = [kv EXCEPT ![s.fab] = fabrics[s.fab]] /\ acked' = [acked EXCEPT ![s.fab] = fabrics[s.fab]] /\ UNCHANGED uncommitted
+                  THEN \* as found: failsafe.disarm, close window, remove_pase - and only then persist.store(fabric)?: when it fails
+                       \* the answer is Failure with the fail-safe idle and nothing stored (F-C08e).  Repaired: the store comes
+                       \* first, a failure leaves the fail-safe armed (the commissioner retries, or the expiry undoes everything)
+                       /\ IF failNext /\ Fixed THEN UNCHANGED <<fs, sess, kv, acked, uncommitted>>
+                          ELSE /\ fs' = Idle /\ sess' = RemovePase(sess)
+                               /\ IF failNext THEN UNCHANGED <<kv, acked>> /\ uncommitted' = TRUE
+                                  ELSE kv' = [kv EXCEPT ![s.fab] = fabrics[s.fab]] /\ acked' = [acked EXCEPT ![s.fab] = fabrics[s.fab]] /\ UNCHANGED uncommitted
                        /\ failNext' = FALSE
                   ELSE UNCHANGED <<fs, sess, kv, acked, failNext, uncommitted>>
                /\ UNCHANGED <<fabrics, resum, resumKv, nextGen, snap, stuck>>
@@ -222,8 +225,8 @@ NoOldResumptionOnNewFabric == \A r \in resum : Present(r.fab) => fabrics[r.fab].
 NeverStuck == ~stuck
 RollbackRestores == (~fs.armed) => \A i \in Idx : fabrics[i] = kv[i]
 \* ... with store failures: a failed write leaves memory ahead of the store (the answer was Failure); what must still hold is
-\* that the fail-safe never goes idle with uncommitted credential changes in memory - CommittedOrUndone is violated by the
-\* code as it is (open finding F-C08e); the other invariants hold under store failures
+\* that the fail-safe never goes idle with uncommitted credential changes in memory - CommittedOrUndone was violated by the
+\* code as found (F-C08e, variant "orig"); it holds with the repair, as do the other invariants
 CommittedOrUndone == ~uncommitted
 \* C11 CommittedSurvives: what a peer was told is committed is what the store holds
 CommittedSurvives == \A i \in Idx : (acked[i].own # 0 /\ kv[i].gen = acked[i].gen) => kv[i].ver = acked[i].ver
